@@ -123,6 +123,9 @@ def check_circuit(ctx, c, log, rng):
     if u.shape != (n, n) or not np.array_equal(u, u_full[:n, :n]):
         ctx.violation("U is not the leading block of U_full", case={"program": log},
                       mechanism="U_not_leading_block", monitor="U leading block")
+    prob = circmon.scribble_probe(c)
+    if prob:
+        ctx.violation(prob, case={"program": log}, mechanism="returned_array_aliases_state", monitor="scribble probe")
     if u_full.shape[0] - n != sh.n_loss:
         ctx.violation(f"{u_full.shape[0] - n} extra modes for {sh.n_loss} loss elements",
                       case={"program": log}, mechanism="loss_mode_count", monitor="loss modes")
